@@ -114,6 +114,10 @@ Definition ctxops_writes : list (string * string) :=
   [("Interpreter.ExecuteContext", "p.interp.ctxOps = 0");
    ("interp.checkContext", "p.ctxOps++");
    ("interp.checkContext", "p.ctxOps = 0")].
+Definition ctx_err_sites : list (string * string) :=
+  [("interp.checkContextNow", "");
+   ("interp.callBuiltin", "err != nil");
+   ("interp.callBuiltin", "err != nil && p.checkCtx && p.ctx.Err() != nil")].
 Definition command_sites : list (string * string * string) :=
   [("interp.execShell", "CommandContext", "p.checkCtx");
    ("interp.execShell", "Command", "!(p.checkCtx)")].
